@@ -366,10 +366,12 @@ def validate_path(fn, params, res, mode):
 
 # ------------------------------------------------------------------ search
 class Stats:
-    FIELDS = ("paths", "aborted", "queries", "decisions", "requires", "validated", "max_depth")
+    FIELDS = ("paths", "aborted", "queries", "decisions", "requires", "validated", "max_depth", "crosschecked",
+              "crosscheck_agreed")
 
     def __init__(self):
         self.paths = self.aborted = self.queries = self.decisions = self.requires = self.validated = 0
+        self.crosschecked = self.crosscheck_agreed = 0
         self.max_depth = 0
         self.solver_time = 0.0
         self.covered = {}
@@ -381,6 +383,8 @@ class Stats:
         self.solver_time += e.solver_time
         self.decisions += e.decisions
         self.requires += e.requires
+        self.crosschecked += e.xchecked
+        self.crosscheck_agreed += e.xagreed
         self.max_depth = max(self.max_depth, len(e.trace))
         if res.status == "abort":
             self.aborted += 1
